@@ -4,7 +4,8 @@ import vlib
 import props.C02 as C02
 
 LEVEL = "proof"
-RULE = ("table ops (len, empty, get i, iter, nexts k) for 9 entry types x class x spec on buffers of every length "
+RULE = ("table ops (len, empty, get i, iter, nexts k, walk = scripts of next / nth / by_ref().take / count / last / step_by / skip / fold on one partly "
+        "advanced iterator, with the expected answers computed from the iteration's own items) for 9 entry types x class x spec on buffers of every length "
         "0..3*entsize+entsize-1 (quick: all lengths for one spec per type, sampled for the rest); indices 0..n+2, "
         "usize::MAX/size +-1, usize::MAX; next() called past the end. Oracle: the coherence laws evaluated on the "
         "implementation's outputs + equality with the model. Non-trivial: table with >= 1 whole entry; distinct by result line.")
@@ -28,6 +29,8 @@ def gen(rng, tier):
                     rng.shuffle(idx)
                     idx = idx[:8] + [rng.randrange(0, n + 1), rng.randrange(0, n + 1)]   # repeated / re-ordered
                     qs = ["len", "empty", "iter", "nexts %d" % (n + 3)] + ["get %d" % i for i in idx]
+                    for _w in range(2):
+                        qs.append(walk_script(rng, n))
                     cases.append("table %s %s %d %s | %s" % (ty, spec, cl, hx(data), " | ".join(qs)))
     if tier == "thorough":
         for _ in range(3000):
@@ -36,8 +39,50 @@ def gen(rng, tier):
             ln = rng.randrange(0, 40 * size)
             n = ln // size
             qs = ["len", "empty", "iter", "nexts %d" % (n + 2)] + ["get %d" % rng.randrange(0, n + 3) for _ in range(6)]
+            qs += [walk_script(rng, n) for _w in range(3)]
             cases.append("table %s %s %d %s | %s" % (ty, spec, cl, hx(rand_bytes(rng, ln)), " | ".join(qs)))
     return cases
+
+
+def walk_script(rng, n):
+    """a script of Iterator calls on one iterator: some non-terminal steps from a partly advanced position, then
+    (usually) a terminal one"""
+    acts = []
+    for _ in range(rng.randrange(0, 4)):
+        c = rng.choice([0, 0, 1, 1, 2])
+        acts += [c, rng.choice([0, 0, 1, 2, rng.randrange(0, n + 2), USIZE_MAX]) if c == 1 else rng.randrange(0, n + 2)]
+    t = rng.choice([0, 1, 3, 4, 5, 6, 7])
+    acts += [t, {5: rng.choice([1, 2, 3, n + 1])}.get(t, rng.choice([0, 1, 2, rng.randrange(0, n + 2), USIZE_MAX]) if t in (1, 6) else 0)]
+    if rng.random() < 0.3:                       # re-poll after the end
+        acts = [2, n + 1, 0, 0, 1, 0] + acts
+    return "walk " + " ".join(str(x) for x in acts)
+
+
+def walk_expected(items, acts):
+    """the answers the standard library's provided methods give over a fused sequence of items"""
+    pos, out = 0, []
+    n = len(items)
+    k = 0
+    while k + 1 < len(acts):
+        c, a = acts[k], acts[k + 1]
+        k += 2
+        if c == 0:
+            out.append(items[pos] if pos < n else "none"); pos = min(pos + 1, n)
+        elif c == 1:
+            out.append(items[pos + a] if pos + a < n else "none"); pos = min(pos + a + 1, n)
+        elif c == 2:
+            out.append(items[pos:pos + a]); pos = min(pos + a, n)
+        elif c == 3:
+            out.append(str(n - pos)); break
+        elif c == 4:
+            out.append(items[-1] if pos < n else "none"); break
+        elif c == 5:
+            out.append(items[pos::max(a, 1)][:64]); break
+        elif c == 6:
+            out.append(items[pos + a:]); break
+        elif c == 7:
+            out.append(items[pos:]); break
+    return out
 
 
 def project(line):
@@ -74,6 +119,10 @@ def oracle(case, impl, model):
                 return "next() sequence is not n items followed by None forever: %s" % (r,)
             if items is not None and r[:n] != items:
                 return "next() items differ from the iteration"
+        if t[0] == "walk" and items is not None:
+            want = walk_expected(items, [int(x) for x in t[1:]])
+            if r != want:
+                return "%s answers %s; from the iterated items the provided Iterator methods give %s" % (q, str(r)[:200], str(want)[:200])
         if t[0] == "get":
             i = int(t[1])
             if (r != "E") != (i < n):
